@@ -2,6 +2,7 @@ import GoCrypt.Proofs.CodecShapes
 import GoCrypt.Props.C10General
 import GoCrypt.Props.TiWf
 import GoCrypt.Props.TypeInfoIR
+import GoCrypt.Props.CodecIR
 
 /-!
 # C10 — Marshal / Unmarshal round trip
@@ -417,4 +418,14 @@ example :
 #print axioms GoCrypt.TypeInfoIR.getTypeInfo_cold_eq_typeInfoOf
 #print axioms GoCrypt.TypeInfoIR.getTypeInfo_cold_eq_typeInfoOf_exact
 #print axioms GoCrypt.TypeInfoIR.example_outer_is_in_the_domain
+-- the Marshal side IS the current code (Props/CodecIR.lean): Marshal, marshalValue, marshal, indirect, isEmpty regenerated from hash/marshal.go (reflect.Value as operations over a value model)
+-- = Codec.marshal for every type info and every representable struct value: text or the same error class
+#print axioms GoCrypt.CodecIR.no_unknown_nodes
+#print axioms GoCrypt.CodecIR.marshal_eq_model
+#print axioms GoCrypt.CodecIR.marshal_eq_marshalRaw
+#print axioms GoCrypt.CodecIR.isEmpty_eq_isEmptyVal
+#print axioms GoCrypt.CodecIR.indirect_nonnil
+#print axioms GoCrypt.CodecIR.indirect_of_nil
+#print axioms GoCrypt.CodecIR.indexAnyInvalid_witness
+#print axioms GoCrypt.CodecIR.marshalText_witness
 end GoCrypt.C10
